@@ -832,6 +832,343 @@ RequestBuilder::with_settings(
             && url_parse_spec(as_ref_str_spec(base_url)) == Some(res.sp_url()),
 //@@ end
 }
+// ---- crate-level shortcuts (src/lib.rs): a stand-alone request with the method the function is named after and the default settings
+//@@ fn src/lib.rs - get props=C07,C16,C14
+//@@ rw R1
+Method::GET
+//@@ =>
+vp_method_get()
+//@@ rw R1
+Method::POST
+//@@ =>
+vp_method_post()
+//@@ rw R1
+Method::PUT
+//@@ =>
+vp_method_put()
+//@@ rw R1
+Method::DELETE
+//@@ =>
+vp_method_delete()
+//@@ rw R1
+Method::HEAD
+//@@ =>
+vp_method_head()
+//@@ rw R1
+Method::OPTIONS
+//@@ =>
+vp_method_options()
+//@@ rw R1
+Method::PATCH
+//@@ =>
+vp_method_patch()
+//@@ rw R1
+Method::TRACE
+//@@ =>
+vp_method_trace()
+//@@ splice before
+RequestBuilder::new(
+//@@ with
+    proof { lemma_shortcut_methods_are_not_connect(); }
+//@@ contract
+    requires url_parse_spec(as_ref_str_spec(base_url)) is Some,   // documented: panics on an invalid URL
+    ensures method_bytes(&res.sp_method()) == str_bytes("GET"@) && url_parse_spec(as_ref_str_spec(base_url)) == Some(res.sp_url()) // id: shortcut_creates_a_request_with_its_own_method [C07]
+        && !res.sp_settings().accept_invalid_certs && !res.sp_settings().accept_invalid_hostnames && hm_view(&res.sp_headers()).len() == 0, // id: shortcut_request_starts_from_the_defaults [C16,C14]
+//@@ end
+//@@ fn src/lib.rs - post props=C07,C16,C14
+//@@ rw R1
+Method::GET
+//@@ =>
+vp_method_get()
+//@@ rw R1
+Method::POST
+//@@ =>
+vp_method_post()
+//@@ rw R1
+Method::PUT
+//@@ =>
+vp_method_put()
+//@@ rw R1
+Method::DELETE
+//@@ =>
+vp_method_delete()
+//@@ rw R1
+Method::HEAD
+//@@ =>
+vp_method_head()
+//@@ rw R1
+Method::OPTIONS
+//@@ =>
+vp_method_options()
+//@@ rw R1
+Method::PATCH
+//@@ =>
+vp_method_patch()
+//@@ rw R1
+Method::TRACE
+//@@ =>
+vp_method_trace()
+//@@ splice before
+RequestBuilder::new(
+//@@ with
+    proof { lemma_shortcut_methods_are_not_connect(); }
+//@@ contract
+    requires url_parse_spec(as_ref_str_spec(base_url)) is Some,   // documented: panics on an invalid URL
+    ensures method_bytes(&res.sp_method()) == str_bytes("POST"@) && url_parse_spec(as_ref_str_spec(base_url)) == Some(res.sp_url()) // id: shortcut_creates_a_request_with_its_own_method [C07]
+        && !res.sp_settings().accept_invalid_certs && !res.sp_settings().accept_invalid_hostnames && hm_view(&res.sp_headers()).len() == 0, // id: shortcut_request_starts_from_the_defaults [C16,C14]
+//@@ end
+//@@ fn src/lib.rs - put props=C07,C16,C14
+//@@ rw R1
+Method::GET
+//@@ =>
+vp_method_get()
+//@@ rw R1
+Method::POST
+//@@ =>
+vp_method_post()
+//@@ rw R1
+Method::PUT
+//@@ =>
+vp_method_put()
+//@@ rw R1
+Method::DELETE
+//@@ =>
+vp_method_delete()
+//@@ rw R1
+Method::HEAD
+//@@ =>
+vp_method_head()
+//@@ rw R1
+Method::OPTIONS
+//@@ =>
+vp_method_options()
+//@@ rw R1
+Method::PATCH
+//@@ =>
+vp_method_patch()
+//@@ rw R1
+Method::TRACE
+//@@ =>
+vp_method_trace()
+//@@ splice before
+RequestBuilder::new(
+//@@ with
+    proof { lemma_shortcut_methods_are_not_connect(); }
+//@@ contract
+    requires url_parse_spec(as_ref_str_spec(base_url)) is Some,   // documented: panics on an invalid URL
+    ensures method_bytes(&res.sp_method()) == str_bytes("PUT"@) && url_parse_spec(as_ref_str_spec(base_url)) == Some(res.sp_url()) // id: shortcut_creates_a_request_with_its_own_method [C07]
+        && !res.sp_settings().accept_invalid_certs && !res.sp_settings().accept_invalid_hostnames && hm_view(&res.sp_headers()).len() == 0, // id: shortcut_request_starts_from_the_defaults [C16,C14]
+//@@ end
+//@@ fn src/lib.rs - delete props=C07,C16,C14
+//@@ rw R1
+Method::GET
+//@@ =>
+vp_method_get()
+//@@ rw R1
+Method::POST
+//@@ =>
+vp_method_post()
+//@@ rw R1
+Method::PUT
+//@@ =>
+vp_method_put()
+//@@ rw R1
+Method::DELETE
+//@@ =>
+vp_method_delete()
+//@@ rw R1
+Method::HEAD
+//@@ =>
+vp_method_head()
+//@@ rw R1
+Method::OPTIONS
+//@@ =>
+vp_method_options()
+//@@ rw R1
+Method::PATCH
+//@@ =>
+vp_method_patch()
+//@@ rw R1
+Method::TRACE
+//@@ =>
+vp_method_trace()
+//@@ splice before
+RequestBuilder::new(
+//@@ with
+    proof { lemma_shortcut_methods_are_not_connect(); }
+//@@ contract
+    requires url_parse_spec(as_ref_str_spec(base_url)) is Some,   // documented: panics on an invalid URL
+    ensures method_bytes(&res.sp_method()) == str_bytes("DELETE"@) && url_parse_spec(as_ref_str_spec(base_url)) == Some(res.sp_url()) // id: shortcut_creates_a_request_with_its_own_method [C07]
+        && !res.sp_settings().accept_invalid_certs && !res.sp_settings().accept_invalid_hostnames && hm_view(&res.sp_headers()).len() == 0, // id: shortcut_request_starts_from_the_defaults [C16,C14]
+//@@ end
+//@@ fn src/lib.rs - head props=C07,C16,C14
+//@@ rw R1
+Method::GET
+//@@ =>
+vp_method_get()
+//@@ rw R1
+Method::POST
+//@@ =>
+vp_method_post()
+//@@ rw R1
+Method::PUT
+//@@ =>
+vp_method_put()
+//@@ rw R1
+Method::DELETE
+//@@ =>
+vp_method_delete()
+//@@ rw R1
+Method::HEAD
+//@@ =>
+vp_method_head()
+//@@ rw R1
+Method::OPTIONS
+//@@ =>
+vp_method_options()
+//@@ rw R1
+Method::PATCH
+//@@ =>
+vp_method_patch()
+//@@ rw R1
+Method::TRACE
+//@@ =>
+vp_method_trace()
+//@@ splice before
+RequestBuilder::new(
+//@@ with
+    proof { lemma_shortcut_methods_are_not_connect(); }
+//@@ contract
+    requires url_parse_spec(as_ref_str_spec(base_url)) is Some,   // documented: panics on an invalid URL
+    ensures method_bytes(&res.sp_method()) == str_bytes("HEAD"@) && url_parse_spec(as_ref_str_spec(base_url)) == Some(res.sp_url()) // id: shortcut_creates_a_request_with_its_own_method [C07]
+        && !res.sp_settings().accept_invalid_certs && !res.sp_settings().accept_invalid_hostnames && hm_view(&res.sp_headers()).len() == 0, // id: shortcut_request_starts_from_the_defaults [C16,C14]
+//@@ end
+//@@ fn src/lib.rs - options props=C07,C16,C14
+//@@ rw R1
+Method::GET
+//@@ =>
+vp_method_get()
+//@@ rw R1
+Method::POST
+//@@ =>
+vp_method_post()
+//@@ rw R1
+Method::PUT
+//@@ =>
+vp_method_put()
+//@@ rw R1
+Method::DELETE
+//@@ =>
+vp_method_delete()
+//@@ rw R1
+Method::HEAD
+//@@ =>
+vp_method_head()
+//@@ rw R1
+Method::OPTIONS
+//@@ =>
+vp_method_options()
+//@@ rw R1
+Method::PATCH
+//@@ =>
+vp_method_patch()
+//@@ rw R1
+Method::TRACE
+//@@ =>
+vp_method_trace()
+//@@ splice before
+RequestBuilder::new(
+//@@ with
+    proof { lemma_shortcut_methods_are_not_connect(); }
+//@@ contract
+    requires url_parse_spec(as_ref_str_spec(base_url)) is Some,   // documented: panics on an invalid URL
+    ensures method_bytes(&res.sp_method()) == str_bytes("OPTIONS"@) && url_parse_spec(as_ref_str_spec(base_url)) == Some(res.sp_url()) // id: shortcut_creates_a_request_with_its_own_method [C07]
+        && !res.sp_settings().accept_invalid_certs && !res.sp_settings().accept_invalid_hostnames && hm_view(&res.sp_headers()).len() == 0, // id: shortcut_request_starts_from_the_defaults [C16,C14]
+//@@ end
+//@@ fn src/lib.rs - patch props=C07,C16,C14
+//@@ rw R1
+Method::GET
+//@@ =>
+vp_method_get()
+//@@ rw R1
+Method::POST
+//@@ =>
+vp_method_post()
+//@@ rw R1
+Method::PUT
+//@@ =>
+vp_method_put()
+//@@ rw R1
+Method::DELETE
+//@@ =>
+vp_method_delete()
+//@@ rw R1
+Method::HEAD
+//@@ =>
+vp_method_head()
+//@@ rw R1
+Method::OPTIONS
+//@@ =>
+vp_method_options()
+//@@ rw R1
+Method::PATCH
+//@@ =>
+vp_method_patch()
+//@@ rw R1
+Method::TRACE
+//@@ =>
+vp_method_trace()
+//@@ splice before
+RequestBuilder::new(
+//@@ with
+    proof { lemma_shortcut_methods_are_not_connect(); }
+//@@ contract
+    requires url_parse_spec(as_ref_str_spec(base_url)) is Some,   // documented: panics on an invalid URL
+    ensures method_bytes(&res.sp_method()) == str_bytes("PATCH"@) && url_parse_spec(as_ref_str_spec(base_url)) == Some(res.sp_url()) // id: shortcut_creates_a_request_with_its_own_method [C07]
+        && !res.sp_settings().accept_invalid_certs && !res.sp_settings().accept_invalid_hostnames && hm_view(&res.sp_headers()).len() == 0, // id: shortcut_request_starts_from_the_defaults [C16,C14]
+//@@ end
+//@@ fn src/lib.rs - trace props=C07,C16,C14
+//@@ rw R1
+Method::GET
+//@@ =>
+vp_method_get()
+//@@ rw R1
+Method::POST
+//@@ =>
+vp_method_post()
+//@@ rw R1
+Method::PUT
+//@@ =>
+vp_method_put()
+//@@ rw R1
+Method::DELETE
+//@@ =>
+vp_method_delete()
+//@@ rw R1
+Method::HEAD
+//@@ =>
+vp_method_head()
+//@@ rw R1
+Method::OPTIONS
+//@@ =>
+vp_method_options()
+//@@ rw R1
+Method::PATCH
+//@@ =>
+vp_method_patch()
+//@@ rw R1
+Method::TRACE
+//@@ =>
+vp_method_trace()
+//@@ splice before
+RequestBuilder::new(
+//@@ with
+    proof { lemma_shortcut_methods_are_not_connect(); }
+//@@ contract
+    requires url_parse_spec(as_ref_str_spec(base_url)) is Some,   // documented: panics on an invalid URL
+    ensures method_bytes(&res.sp_method()) == str_bytes("TRACE"@) && url_parse_spec(as_ref_str_spec(base_url)) == Some(res.sp_url()) // id: shortcut_creates_a_request_with_its_own_method [C07]
+        && !res.sp_settings().accept_invalid_certs && !res.sp_settings().accept_invalid_hostnames && hm_view(&res.sp_headers()).len() == 0, // id: shortcut_request_starts_from_the_defaults [C16,C14]
+//@@ end
 /// framing headers the property prescribes for a body kind: Content-Length equal to the body octet count, or chunked, never both;
 /// neither for an empty body
 pub open spec fn framing_headers_ok(h: &HeaderMap, kind: BodyKind) -> bool {
@@ -932,4 +1269,24 @@ impl<B> RequestBuilder<B> {
         ensures res.sp_body() == body, res.sp_settings() == self.sp_settings(), res.sp_headers() == self.sp_headers(), res.sp_url() == self.sp_url(), res.sp_method() == self.sp_method(), // id: body_setter_changes_only_the_body [C16]
 //@@ end
 
+}
+/// `r.expect(msg)`: hands the value out when `r` is Ok and panics otherwise (a panic is not a return, so nothing is claimed for it)
+#[verifier::external_body] pub fn vp_expect_ok<T>(r: Result<T>, msg: &str) -> (t: T) ensures r matches Ok(v) && v == t { r.expect(msg) }
+impl<B: Body> RequestBuilder<B> {
+//@@ fn src/request/builder.rs impl<B:~Body>~RequestBuilder<B> prepare props=C07,C16
+//@@ method R1
+expect
+//@@ =>
+vp_expect_ok(@@RECV, @@ARGS)
+//@@ contract
+        ensures
+            res.sp_settings() == self.sp_settings() && res.sp_url() == self.sp_url() && res.sp_method() == self.sp_method(), // id: prepare_keeps_builder_values [C16]
+            framing_headers_ok(&res.sp_headers(), self.sp_body().kind_spec()), // id: prepare_sets_the_framing_headers_of_the_body [C07]
+            res.sp_body().octets() == self.sp_body().octets() && res.sp_body().kind_spec() == self.sp_body().kind_spec(),
+//@@ end
+//@@ fn src/request/builder.rs impl<B:~Body>~RequestBuilder<B> send props=C09,C16
+//@@ contract
+        requires self.sp_settings().max_redirections < u32::MAX,
+        ensures res matches Ok(resp) ==> (!self.sp_settings().follow_redirects || !is_followed_status(status_u16(resp.sp_status()))), // id: builder_send_honours_the_redirect_settings [C09,C16]
+//@@ end
 }
